@@ -15,6 +15,9 @@ func c12Stmt(st ast.Stmt) string {
 			return "call:" + c05Expr(c.Fun)
 		}
 	case *ast.AssignStmt:
+		if len(v.Rhs) == 1 && len(v.Lhs) == 1 {
+			return "assign:" + c05Expr(v.Lhs[0]) + v.Tok.String() + c05Expr(v.Rhs[0])
+		}
 		if len(v.Rhs) == 1 {
 			return "assign:" + c05Expr(v.Rhs[0])
 		}
@@ -30,6 +33,30 @@ func c12Stmt(st ast.Stmt) string {
 			s = "if-init:" + c05Expr(a.Rhs[0]) + ";"
 		}
 		s += c05Expr(v.Cond)
+		// state changes made directly in the branch
+		var eff []string
+		for _, b := range v.Body.List {
+			switch e := b.(type) {
+			case *ast.AssignStmt:
+				if len(e.Lhs) == 1 && len(e.Rhs) == 1 {
+					if sel, ok := e.Lhs[0].(*ast.SelectorExpr); ok && c05Expr(sel.X) == "i" {
+						eff = append(eff, c05Expr(e.Lhs[0])+"="+c05Expr(e.Rhs[0]))
+					}
+				}
+				if len(e.Lhs) == 1 && len(e.Rhs) == 1 {
+					if id, ok := e.Lhs[0].(*ast.Ident); ok && id.Name == "updated" {
+						eff = append(eff, "updated="+c05Expr(e.Rhs[0]))
+					}
+				}
+			case *ast.ExprStmt:
+				if c, ok := e.X.(*ast.CallExpr); ok && strings.HasPrefix(c05Expr(c.Fun), "i.config.") {
+					eff = append(eff, c05Expr(c.Fun))
+				}
+			}
+		}
+		if len(eff) > 0 {
+			s += "{" + strings.Join(eff, ";") + "}"
+		}
 		// does the branch return?
 		for _, b := range v.Body.List {
 			if r, ok := b.(*ast.ReturnStmt); ok {
@@ -116,5 +143,49 @@ func factsC12() {
 			wo = append(wo, c)
 		}
 	}
+	// the repair: ForceRewrite and the guards that listen to it
+	cfgf := "pkg/haproxy/config.go"
+	var fr []string
+	ast.Inspect(methodDecl(cfgf, "config", "ForceRewrite").Body, func(n ast.Node) bool {
+		switch v := n.(type) {
+		case *ast.AssignStmt:
+			if len(v.Lhs) == 1 && len(v.Rhs) == 1 {
+				fr = append(fr, c05Expr(v.Lhs[0])+"="+c05Expr(v.Rhs[0]))
+			}
+		case *ast.CallExpr:
+			fr = append(fr, c05Expr(v.Fun))
+		}
+		return true
+	})
+	addStrList("c12ForceRewrite", fr, "config.ForceRewrite: assignments and calls")
+	firstIf := func(name string) []string {
+		var res []string
+		ast.Inspect(methodDecl(cfgf, "config", name).Body, func(n ast.Node) bool {
+			if v, ok := n.(*ast.IfStmt); ok && len(res) == 0 {
+				res = append(res, c05Expr(v.Cond))
+			}
+			return true
+		})
+		return res
+	}
+	addStrList("c12TcpMapsGuard", firstIf("WriteTCPServicesMaps"), "config.WriteTCPServicesMaps: guard")
+	addStrList("c12BackendMapsGuard", firstIf("WriteBackendMaps"), "config.WriteBackendMaps: guard")
+	var vis []string
+	ast.Inspect(methodDecl(cfgf, "config", "WriteBackendMaps").Body, func(n ast.Node) bool {
+		if a, ok := n.(*ast.AssignStmt); ok && len(a.Lhs) == 1 && len(a.Rhs) == 1 {
+			if id, ok := a.Lhs[0].(*ast.Ident); ok && id.Name == "backends" {
+				vis = append(vis, a.Tok.String()+c05Expr(a.Rhs[0]))
+			}
+		}
+		return true
+	})
+	addStrList("c12BackendMapsVisited", vis, "config.WriteBackendMaps: what `backends` is set to (ItemsAdd, or Items when rewriteAll)")
+	var cm []string
+	for _, a := range methodAssigns(cfgf, "config", "Commit") {
+		if a == "c.rewriteAll=?" || len(a) > 12 && a[:12] == "c.rewriteAll" {
+			cm = append(cm, a)
+		}
+	}
+	addStrList("c12CommitResets", cm, "config.Commit: resets rewriteAll")
 	addStrList("c12WriteOutputCalls", wo, "template.Config.WriteOutput: every template is executed before the first file is written")
 }
